@@ -7,7 +7,7 @@ from mc.patterns import pat
 
 PROPERTY_ID = "C19"
 RULE = ("2-safety by self-composition over an enumerated secret alphabet: for each operation (X25519 general and fixed-base, Ed25519 keypair / signature / "
-        "signature_extended, Poly1305 (also on the RFC 8439 A.3 wrap-around messages with keys r in {1,2}, s in {0,ff..} whose accumulator crosses 2^130-5), HMAC-SHA256, ChaCha20, Salsa20, MacResult == (lengths 16..64 incl. 20, 28, 33), Tag ==, incremental AEAD tag verdict) the release-profile victim (hooks off) is "
+        "signature_extended, XChaCha20 / ChaCha20-original / XSalsa20, HMAC-SHA1/-SHA512, keyed BLAKE2b MAC, ed25519::exchange, AEAD encryption, Poly1305 (also on the RFC 8439 A.3 wrap-around messages with keys r in {1,2}, s in {0,ff..} whose accumulator crosses 2^130-5), HMAC-SHA256, ChaCha20, Salsa20, MacResult == (lengths 16..64 incl. 20, 28, 33), Tag ==, incremental AEAD tag verdict) the release-profile victim (hooks off) is "
         "executed under valgrind lackey once per secret with all public inputs fixed; the complete sequence of instruction addresses between two markers must be "
         "identical to the baseline secret's; secrets: 00.., FF.., single-bit values, patterns; for comparisons: equal, and first mismatch at every position; the "
         "baseline is traced twice and must equal itself; a deliberately leaky operation must be flagged (tracer self-test) before any verdict; thorough re-traces the "
@@ -64,6 +64,11 @@ def ops(tier):
     out.append(("hmac_sha256", msg67, secrets(32, tier, 16, (0, 127, 128, 255))))
     out.append(("chacha20", data130, secrets(32, tier, 16, (0, 127, 128, 255))))
     out.append(("salsa20", data130, secrets(32, tier, 16, (0, 127, 128, 255))))
+    EDPUB = "d75a980182b10ab7d54bfed3c964073a0ee172f3daa62325af021a68f707511a"     # RFC 8032 test 1 public key
+    more = [("xchacha20", data130, 32), ("chacha20_original", data130, 32), ("xsalsa20", data130, 32), ("hmac_sha512", msg67, 32), ("hmac_sha1", msg67, 20),
+            ("blake2b_mac", msg67, 32), ("ed_exchange", EDPUB, 32), ("aead_encrypt", data130, 32)]
+    for op, pub, n in more:
+        out.append((op, pub, secrets(n, tier, 16, (0, 8 * n - 1))))
     # comparisons: the public side is fixed, the secret equals it or first differs at position i
     for op, n in (("macresult_eq", 32), ("macresult_eq", 20), ("macresult_eq", 28), ("macresult_eq", 33), ("macresult_eq", 64), ("tag_eq", 16)):
         base = pat(7, 0, n)
